@@ -26,10 +26,12 @@ import (
 	"github.com/cosmos/cosmos-sdk/client"
 	simtestutil "github.com/cosmos/cosmos-sdk/testutil/sims"
 	sdk "github.com/cosmos/cosmos-sdk/types"
+	"github.com/cosmos/cosmos-sdk/types/module"
 	"github.com/cosmos/cosmos-sdk/types/tx/signing"
 	authtypes "github.com/cosmos/cosmos-sdk/x/auth/types"
 	banktypes "github.com/cosmos/cosmos-sdk/x/bank/types"
 	slashingtypes "github.com/cosmos/cosmos-sdk/x/slashing/types"
+	upgradetypes "github.com/cosmos/cosmos-sdk/x/upgrade/types"
 	"github.com/ethereum/go-ethereum/common"
 	ethtypes "github.com/ethereum/go-ethereum/core/types"
 	"github.com/ethereum/go-ethereum/crypto"
@@ -92,18 +94,37 @@ type Chain struct {
 	Hdr      tmproto.Header
 	open     bool
 	EthChain *big.Int
+	Tape     *txTape // optional: record / replay of the transaction bytes of every block
+	Resp     []abci.ResponseDeliverTx // responses of the open (or last) block
+	Begun    abci.ResponseBeginBlock
+}
+
+// txTape makes several nodes execute byte-identical transactions: the first node
+// records what it delivers; the others build their transactions from their own
+// state with the same code, report when the bytes differ, and deliver the recorded ones.
+type txTape struct {
+	Replay   bool
+	Txs      [][]byte
+	Pos      int
+	Diverged []string
 }
 
 var chainEnc = encoding.MakeConfig(app.ModuleBasics)
 
 // openApp constructs an application on db (restart when db already holds state).
 func openApp(db dbm.DB) *app.Haqq {
-	return app.NewHaqq(
+	a := app.NewHaqq(
 		log.NewNopLogger(), db, nil, true, map[int64]bool{},
 		app.DefaultNodeHome, 0, chainEnc,
 		simtestutil.NewAppOptionsWithFlagHome(app.DefaultNodeHome),
 		baseapp.SetChainID(chainID),
 	)
+	// "a binary that knows the upgrades hvnoop0..": no-op handlers, registered on every instance
+	for i := 0; i < hvUpgradeNames; i++ {
+		a.UpgradeKeeper.SetUpgradeHandler(fmt.Sprintf("hvnoop%d", i),
+			func(_ sdk.Context, _ upgradetypes.Plan, vm module.VersionMap) (module.VersionMap, error) { return vm, nil })
+	}
+	return a
 }
 
 func chainValidator() (*tmtypes.Validator, []byte) {
@@ -188,12 +209,14 @@ func (c *Chain) Begin(dt time.Duration) abci.ResponseBeginBlock {
 		panic("block already open")
 	}
 	c.Hdr = c.header(c.Height+1, c.Time.Add(dt))
+	c.Resp = nil
 	res := c.App.BeginBlock(abci.RequestBeginBlock{
 		Header: c.Hdr,
 		LastCommitInfo: abci.CommitInfo{Votes: []abci.VoteInfo{{
 			Validator: abci.Validator{Address: c.ValCons, Power: 1}, SignedLastBlock: true}}},
 	})
 	c.open = true
+	c.Begun = res
 	return res
 }
 
@@ -210,7 +233,24 @@ func (c *Chain) QueryCtx() sdk.Context {
 }
 
 func (c *Chain) Deliver(txBytes []byte) abci.ResponseDeliverTx {
-	return c.App.DeliverTx(abci.RequestDeliverTx{Tx: txBytes})
+	if t := c.Tape; t != nil {
+		if !t.Replay {
+			t.Txs = append(t.Txs, txBytes)
+		} else {
+			if t.Pos >= len(t.Txs) {
+				t.Diverged = append(t.Diverged, fmt.Sprintf("height %d: this node builds a transaction the recording node did not build", c.Hdr.Height))
+			} else {
+				if string(t.Txs[t.Pos]) != string(txBytes) {
+					t.Diverged = append(t.Diverged, fmt.Sprintf("height %d tx %d: transaction built from this node's state differs from the recorded bytes", c.Hdr.Height, t.Pos))
+				}
+				txBytes = t.Txs[t.Pos]
+			}
+			t.Pos++
+		}
+	}
+	res := c.App.DeliverTx(abci.RequestDeliverTx{Tx: txBytes})
+	c.Resp = append(c.Resp, res)
+	return res
 }
 
 // End closes the open block: EndBlock + Commit.
